@@ -600,8 +600,13 @@ impl World {
             if self.slice_budgets.is_empty() {
                 hooks::set_performance_counter_step(0);
             } else {
-                let k = self.slice_budgets[self.slice_pos % self.slice_budgets.len()].max(1) as u64;
+                let mut k = self.slice_budgets[self.slice_pos % self.slice_budgets.len()].max(1) as u64;
                 self.slice_pos += 1;
+                // very large blocks: after a dozen small rounds the budget doubles every round,
+                // so that a block with thousands of operations does not need thousands of rounds
+                if rounds > 12 {
+                    k = k.saturating_mul(1u64 << (rounds - 12).min(20));
+                }
                 hooks::set_performance_counter_step(1_000_000_000u64.div_ceil(k + 1));
             }
             rounds += 1;
